@@ -278,5 +278,14 @@ theorem step_nodups (hd : HD K P) (s : State K P) (op : Op K P) (h : Nodups s) :
           · exact h
           · exact ⟨by simp only [doLock, List.map_map, Function.comp_def]; exact h.m,
               by simp only [List.map_map, Function.comp_def]; exact h.d⟩
+        · unfold opDeriveCache
+          repeat' (first | split | dsimp only)
+          all_goals exact h
+        · unfold opRename renameCached
+          repeat' (first | split | dsimp only)
+          all_goals first
+            | exact h
+            | exact h.putSD _ _
+            | exact (h.putSD _ _).putSM _ _
 
 end AddrDerive
